@@ -8,13 +8,16 @@ RULE = ('Master-level histories as in C09; during every init_schedule() and resc
         'the world where the master died there - it checks that no instance is stored under two servers, starts a new '
         'Master on the stored state (load_model, init_schedule), evaluates the C09 oracle and runs the master\'s own '
         'check_placement_integrity(). Every write of every publication step is a crash point (no sampling inside a '
-        'cycle). Non-trivial: a cut at a /placement/<server>/<instance> write inside a cycle that both deleted and '
+        'cycle). Before 30 % of the ZooKeeper requests of an operator command (masterapi calls are several requests) a side '
+        'world is forked in which the master handles what its watches have for it and publishes a whole cycle while the '
+        'command stands half-way; before each write of that publication the store must not hold an instance under two '
+        'servers. Non-trivial: a cut at a /placement/<server>/<instance> write inside a cycle that both deleted and '
         'created entries; distinct by (history, cycle, write index).')
 ASSUMPTIONS = ['in-memory ZooKeeper fake; a crash is modelled as: no further operation of the old master session is applied',
                'fork()ed children (copy-on-write snapshot of the fake and the harness); children disarm inherited hooks',
                'virtual clock']
 BUDGET = {'quick': (13, 60.0), 'thorough': (130, 300.0)}
-REQUIRED_REACH = {'*': ['cuts', 'cuts_inside_delete_create_cycle', 'master_restarts']}
+REQUIRED_REACH = {'*': ['cuts', 'cuts_inside_delete_create_cycle', 'master_restarts', 'cycles_between_operator_writes_with_events_and_writes']}
 
 
 def run(ctx):
